@@ -80,6 +80,13 @@ fn find_and_play_best_move(
     start: Instant,
     draw_table: &mut DrawTable,
 ) -> BoardState {
+    // the game is already over, there is no move to search for and the search thread would never send one
+    let zobrist_hasher = ZobristHasher::create_zobrist_hasher();
+    if generate_moves(board, MoveGenerationMode::AllMoves, &zobrist_hasher).is_empty() {
+        send_to_gui("bestmove 0000");
+        return board.clone();
+    }
+
     let time_to_move_ms = parse_go_command(commands).calculate_time_slice(board.to_move);
     let mut best_move = None;
     #[cfg(walleye_verif)]
